@@ -36,6 +36,9 @@ INT_TYPES = ['integer', 'nonPositiveInteger', 'negativeInteger', 'long', 'int', 
 MODELLED = INT_TYPES + ['decimal', 'boolean', 'double', 'float', 'hexBinary', 'base64Binary']
 DUR_TYPES = ['duration', 'yearMonthDuration', 'dayTimeDuration']   # Lean recogniser + value (months, seconds)
 GREG_TYPES = ['time', 'gDay', 'gMonth', 'gMonthDay']   # Lean recogniser + field values + timezone
+# Lean recogniser over translator-generated character tables, spec = XML 1.0 (5th ed.) / Namespaces in XML productions
+NAME_TYPES = {'NCName': 'NCName', 'ID': 'NCName', 'IDREF': 'NCName', 'ENTITY': 'NCName', 'Name': 'Name', 'NMTOKEN': 'NMTOKEN',
+              'QName': 'QName'}
 SKIPPED_TYPES = ['anyAtomicType', 'NOTATION', 'error']   # no constructor function / abstract (XPST0080, XPST0017)
 
 
@@ -215,6 +218,39 @@ class Impl:
             return 'err', err_text(e)
         return 'ok', r
 
+    def public_paths(self, pname: str, v: str, expr: str, variables: dict) -> dict:
+        """the same expression through the other public evaluation paths: select(), iter_select(), Selector (a fresh
+        parser each), with an lxml element and an ElementTree document as roots"""
+        import elementpath
+        from elementpath import XPath2Parser
+        from elementpath.xpath31 import XPath31Parser
+        import lxml.etree as LET
+        import xml.etree.ElementTree as ET
+        P = XPath2Parser if pname == '2' else XPath31Parser
+        out = {}
+        roots = {'et-element': self.root, 'lxml-element': LET.XML('<r/>'), 'et-document': ET.ElementTree(ET.XML('<r/>'))}
+
+        def norm(r):
+            return 'ok:' + value_text(r)
+
+        for rn, root in roots.items():
+            try:
+                out[f'select/{rn}'] = norm(elementpath.select(root, expr, parser=P, variables=dict(variables), xsd_version=v))
+            except Exception as e:
+                out[f'select/{rn}'] = err_text(e)
+        try:
+            items = list(elementpath.iter_select(self.root, expr, parser=P, variables=dict(variables), xsd_version=v))
+            out['iter_select'] = norm(items[0] if len(items) == 1 else items)
+        except Exception as e:
+            out['iter_select'] = err_text(e)
+        try:
+            sel = elementpath.Selector(expr, parser=P, xsd_version=v)
+            out['Selector'] = norm(sel.select(self.root, variables=dict(variables)))
+            out['Selector-2nd-call'] = norm(sel.select(roots['lxml-element'], variables=dict(variables)))
+        except Exception as e:
+            out['Selector'] = err_text(e)
+        return out
+
     def direct(self, t: str, s, v: str | None):
         """the constructor path of the datatypes layer: T(s) (or T.fromstring / T.make with a version)"""
         from elementpath.datatypes import AbstractDateTime, Duration, AbstractQName
@@ -311,7 +347,21 @@ def g_b64(rng):
     return s
 
 
+# characters around the borders of the XML 1.0 (5th ed.) NameStartChar / NameChar ranges and of Python's \w, \d:
+# classified alike (accepted or rejected by both) and classified differently (F10n) in either direction
+NAME_EXOTIC = ('\u00e9\u00df\u00c0\u00d6\u00d8\u00f6\u00f8\u02ff\u0370\u037d\u037f\u1fff\u200c\u200d\u2c00\u3001\u4e2d\ud7ff\uf900\ufdcf\ufdf0\ufffd'
+               '\U00010000\U000effff\u00b7\u0300\u036f\u203f\u2040\u0660\u0663'           # names per XML
+               '\u00d7\u00f7\u037e\u2000\u200b\u200e\u206f\u2190\u2bff\u2ff0\u3000\ud7fb\ufdd0\ufdef\ufffe\uffff\U000f0000\U0010ffff'
+               '\u00a0\u00b6\u00b8\u02c2\u2118\u212e\u309b\u2070\u218f'                   # borders, mostly rejected per XML
+               '\u00aa\u00b2\u00b3\u00b5\u00b9\u00ba\u00bc\u00be\u2460\u2776\u3192\u0387\u06dd\u06de')  # \w but not XML
+
+
 def g_name(rng, first='abcXYZ_', rest='abcXYZ_-.09'):
+    if rng.random() < 0.3:
+        n = rng.randint(0, 4)
+        chars = [rng.choice(first + rest + NAME_EXOTIC * 2) if rng.random() < 0.5 else rng.choice(first) ]
+        chars += [rng.choice(rest + NAME_EXOTIC) if rng.random() < 0.4 else rng.choice(rest) for _ in range(n)]
+        return ''.join(chars)
     return rng.choice(first) + ''.join(rng.choice(rest) for _ in range(rng.randint(0, 5)))
 
 
@@ -381,6 +431,12 @@ def g_lang(rng):
 
 
 def g_qname(rng):
+    if rng.random() < 0.5:
+        parts = [g_name(rng) for _ in range(rng.choice([1, 1, 2, 2, 2, 3]))]
+        if rng.random() < 0.15:
+            parts[rng.randrange(len(parts))] = rng.choice(['', '1', '-a', 'a b', '.'])
+        pre = rng.choice(['', '', ' ', '\n', '\t ']); post = rng.choice(['', '', ' ', '\n', '\r\n'])
+        return pre + ':'.join(parts) + post
     return rng.choice(['xs:integer', 'fn:abs', 'local', 'xml:lang', 'nope:x', 'a:b:c', ':a', 'a:', '1a', 'xs:1', 'a b',
                        'Q{http://x}a', '{http://x}a', 'xs: a', g_name(rng), 'xs:' + g_name(rng)])
 
@@ -504,6 +560,8 @@ def lexical_cases(run: Run, impl: Impl, cases: list) -> None:
             lines.append(f'op=greg K={t} S={cps(s)}')
         elif t == 'language':
             lines.append(f'op=lang S={cps(s)}')
+        elif t in NAME_TYPES:
+            lines.append(f'op=name K={NAME_TYPES[t]} S={cps(s)}')
     answers = iter(run.driver('C10', lines))
 
     def parse(ans):
@@ -528,6 +586,8 @@ def lexical_cases(run: Run, impl: Impl, cases: list) -> None:
                 greg_ans = parse(next(answers))
             if t == 'language':
                 lang_ans = parse(next(answers))
+            if t in NAME_TYPES:
+                name_ans = parse(next(answers))
             fl = ('w' if any((c.isspace() and c not in ' \t\n\r') for c in s) else '') + \
                  ('v' if s != xsd_collapse(s) else '')
         tags_w = []   # F10w, F10v are fixed on fix-c10-2: nothing is excused any more
@@ -608,6 +668,38 @@ def lexical_cases(run: Run, impl: Impl, cases: list) -> None:
                                               site='string.py Language.__new__'))
                 elif got_l != mm:
                     run.disagree(Disagreement(case, impl=got_l, model=mm, what='language-model', site='string.py Language.__new__'))
+            if t in NAME_TYPES:
+                mm, _, sp, nfl = name_ans
+                if t == 'QName':
+                    got_n = 'ok' if kind == 'ok' else val
+                else:
+                    got_n = ('ok:' + cps(str(val))) if kind == 'ok' else val
+                st.count('lex:name-model:' + t)
+                tags_n = ['F10n'] if 'n' in nfl else []
+                if tags_n:
+                    st.count('lex:flag:name-char-classified-differently')
+                if t == 'QName':
+                    # the constructor itself with a bound namespace: any prefix is acceptable, only the lexical form counts
+                    try:
+                        impl.types['QName']('urn:x', s)
+                        got_q = 'ok'
+                    except ValueError:
+                        got_q = 'ERR:V'
+                    except Exception as e:
+                        got_q = 'ERR:OTHER:' + type(e).__name__
+                    st.count('lex:qname-ctor-bound:' + got_q)
+                    if got_q != mm:
+                        run.disagree(Disagreement(case, impl=got_q, model=mm, what='qname-ctor-model', site='qname.py AbstractQName.__init__'))
+                    elif got_q != sp:
+                        run.disagree(Disagreement(case, impl=got_q, model=mm, spec=sp, what='qname-ctor-vs-xml-production',
+                                                  site='qname.py AbstractQName.__init__', tags=tags_n))
+                if qname_ns_error:
+                    pass       # undeclared prefix (FONS0004): only the bound constructor above is compared
+                elif got_n != mm:        # the tie first: the tables of the model are generated from the live patterns
+                    run.disagree(Disagreement(case, impl=got_n, model=mm, what='name-model', site=f'datatypes {t}.pattern'))
+                elif got_n != sp:
+                    run.disagree(Disagreement(case, impl=got_n, model=mm, spec=sp, what='name-vs-xml-production',
+                                              site=f'datatypes {t}.pattern', tags=tags_n))
             if t in GREG_TYPES:
                 mm, _, sp, _ = greg_ans
                 if kind == 'ok':
@@ -698,6 +790,18 @@ def lexical_cases(run: Run, impl: Impl, cases: list) -> None:
             else:
                 dk, dv = impl.direct(t, s, v)
             # expected from the versioned constructor path
+            if run.rng.random() < 0.04 and t != 'QName':
+                # the other public evaluation paths must give what token.evaluate() gives
+                pn_ = run.rng.choice(['2', '31'])
+                for form, key in ((f'$s cast as xs:{t}', f'cast{pn_}'), (f'xs:{t}($s)', f'fn{pn_}'),
+                                  (f'$s castable as xs:{t}', f'castable{pn_}')):
+                    k0, r0 = paths[key]
+                    base = ('ok:' + value_text(r0)) if k0 == 'ok' else r0
+                    for pname_, got_ in impl.public_paths(pn_, v, form, {'s': s}).items():
+                        st.count('lex:public-path:' + pname_.split('/')[0])
+                        if got_ != base:
+                            run.disagree(Disagreement(dict(case, xsd=v, expr=form, path=pname_), impl=got_, spec=base,
+                                                      what='public-path-vs-evaluate', site='xpath_selectors.py / XPathContext'))
             for name, (k, r) in paths.items():
                 st.count(f'lex:{name[:-1] if name[-1] in "2" else name[:-2]}:' + ('ok' if k == 'ok' else r))
                 if name.startswith('castable'):
@@ -1479,8 +1583,6 @@ def run_history(impl: Impl, ops: list):
                         d = ('-' if m < 0 else '') + f'PT{abs(m)}M'
                         st, r = impl.xpath('31', '1.1', f"{fn}($v, xs:dayTimeDuration('{d}'))", {'v': v})
                     elif op[2] == 'empty':
-                        if isinstance(v, DateTimeStamp):
-                            flags.add('F10k')     # timezone removed from an xs:dateTimeStamp
                         st, r = impl.xpath('31', '1.1', f'{fn}($v, ())', {'v': v})
                     else:
                         st, r = impl.xpath('31', '1.1', f'{fn}($v)', {'v': v}, timezone=tz_of(op[3]))
@@ -1667,6 +1769,78 @@ def translate_tables(run: Run) -> dict:
     out.append('')
     out.append('/-- code points matched by helpers.Patterns.whitespaces (one character, fullmatch) -/')
     out.append('def whitespaceCPs : List Nat := [' + ', '.join(map(str, white)) + ']')
+    import unicodedata, hashlib, tempfile, os, json
+    cache_file = Path(tempfile.gettempdir()) / 'verif-c10-name-tables.json'
+    try:
+        cache = json.loads(cache_file.read_text())
+    except Exception:
+        cache = {}
+
+    def cached_ranges(pattern, probe, pred):
+        """the table is a function of the pattern text, the probe and the Unicode tables of the interpreter"""
+        key = hashlib.sha256(repr((pattern.pattern, pattern.flags, probe, unicodedata.unidata_version,
+                                   sys.version)).encode()).hexdigest()
+        if key not in cache:
+            cache[key] = cp_ranges(pred)
+            cache['dirty'] = True
+        return [tuple(x) for x in cache[key]]
+
+    def cp_ranges(pred):
+        res, a = [], None
+        for cp in range(0x110000):
+            if pred(chr(cp)):
+                if a is None:
+                    a = cp
+            elif a is not None:
+                res.append((a, cp)); a = None
+        if a is not None:
+            res.append((a, 0x110000))
+        return res
+
+    name_tables = {}
+    for key, tname in (('ncname', 'NCName'), ('name', 'Name'), ('nmtoken', 'NMTOKEN')):
+        cp_ = types[tname].pattern          # the compiled live pattern (LazyPattern descriptor)
+        name_tables[key + 'First'] = cached_ranges(cp_, '%s', lambda ch: cp_.fullmatch(ch) is not None)
+        name_tables[key + 'Later'] = cached_ranges(cp_, 'a%s', lambda ch: cp_.fullmatch('a' + ch) is not None)
+    qp_ = types['QName'].pattern
+    name_tables['qnameFirst'] = cached_ranges(qp_, '%s', lambda ch: qp_.fullmatch(ch) is not None)
+    name_tables['qnameLater'] = cached_ranges(qp_, 'a%s', lambda ch: qp_.fullmatch('a' + ch) is not None)
+    name_tables['qnamePFirst'] = cached_ranges(qp_, '%s:a', lambda ch: qp_.fullmatch(ch + ':a') is not None)
+    name_tables['qnamePLater'] = cached_ranges(qp_, 'a%s:a', lambda ch: qp_.fullmatch('a' + ch + ':a') is not None)
+    if cache.pop('dirty', False):
+        try:
+            tmp_ = cache_file.with_suffix('.%d.tmp' % os.getpid())
+            tmp_.write_text(json.dumps(cache))
+            os.replace(tmp_, cache_file)
+        except OSError:
+            pass
+    # the harness's own view: do the live character classes coincide with the XML 1.0 (5th ed.) productions?
+    xs_ = [(0x41, 0x5B), (0x5F, 0x60), (0x61, 0x7B), (0xC0, 0xD7), (0xD8, 0xF7), (0xF8, 0x300), (0x370, 0x37E), (0x37F, 0x2000),
+           (0x200C, 0x200E), (0x2070, 0x2190), (0x2C00, 0x2FF0), (0x3001, 0xD800), (0xF900, 0xFDD0), (0xFDF0, 0xFFFE),
+           (0x10000, 0xF0000)]
+    xc_ = xs_ + [(0x2D, 0x2F), (0x30, 0x3A), (0xB7, 0xB8), (0x300, 0x370), (0x203F, 0x2041)]
+    col_ = [(0x3A, 0x3B)]
+
+    def same_set(tbl, ref):
+        merged = []
+        for a, b in sorted(ref):
+            if merged and a <= merged[-1][1]:
+                merged[-1] = (merged[-1][0], max(merged[-1][1], b))
+            else:
+                merged.append((a, b))
+        return [tuple(x) for x in tbl] == merged
+    agree = (same_set(name_tables['ncnameFirst'], xs_) and same_set(name_tables['ncnameLater'], xc_)
+             and same_set(name_tables['nameFirst'], xs_ + col_) and same_set(name_tables['nameLater'], xc_ + col_)
+             and same_set(name_tables['nmtokenFirst'], xc_ + col_) and same_set(name_tables['nmtokenLater'], xc_ + col_)
+             and same_set(name_tables['qnameFirst'], xs_) and same_set(name_tables['qnameLater'], xc_)
+             and same_set(name_tables['qnamePFirst'], xs_) and same_set(name_tables['qnamePLater'], xc_))
+    out.append('/-- the translator\'s own comparison of the ten tables below with the XML 1.0 (5th ed.) NameStartChar / NameChar '
+               'productions (code point by code point, in Python); `EPV.C10.name_tables_status` re-computes it in the kernel -/')
+    out.append(f'def nameTablesAgreeClaim : Bool := {"true" if agree else "false"}')
+    out.append('/-- code points the live patterns of xs:NCName / xs:Name / xs:NMTOKEN accept in first / in later position '
+               '(half-open ranges; depends on the Unicode tables of the running CPython) -/')
+    for k_, v_ in name_tables.items():
+        out.append(f'def {k_} : List (Nat × Nat) := [' + ', '.join(f'({a}, {b})' for a, b in v_) + ']')
     out.append('def booleanValues : List String := [' + ', '.join(lean_str(x) for x in sorted(helpers.BOOLEAN_VALUES)) + ']')
     out.append('def infOrNan : List String := [' + ', '.join(lean_str(x) for x in sorted(helpers.NUMERIC_INF_OR_NAN)) + ']')
     out.append('/-- pattern source text of each builtin atomic type (LazyPattern._pattern) -/')
@@ -1678,7 +1852,7 @@ def translate_tables(run: Run) -> dict:
     gen.parent.mkdir(exist_ok=True)
     if not gen.exists() or gen.read_text() != text:
         gen.write_text(text)
-    return {'integer_types': len(rows), 'whitespace_codepoints': len(white),
+    return {'integer_types': len(rows), 'whitespace_codepoints': len(white), 'name_table_ranges': {k: len(v) for k, v in name_tables.items()}, 'name_tables_agree_with_xml': agree,
             'patterns': len(pats), 'rows': [(n, lo, hi) for n, lo, hi, _ in rows]}
 
 
@@ -1777,7 +1951,7 @@ def body(run: Run) -> int:
         'types without a Lean recogniser (dates, durations, QName, anyURI, language, Name/NCName family, string types) '
         'are compared path-against-path only',
         'xs:anyAtomicType, xs:NOTATION, xs:error have no usable constructor and are excluded']
-    run.prove(['EPV.Props.C10', 'EPV.Props.C10Tables', 'EPV.Props.C10Tz', 'EPV.Props.C10Dur', 'EPV.Props.C10Greg'], ['EPV.Spec.XSDLexical', 'EPV.Model.Lexical'])
+    run.prove(['EPV.Props.C10', 'EPV.Props.C10Tables', 'EPV.Props.C10Tz', 'EPV.Props.C10Dur', 'EPV.Props.C10Greg', 'EPV.Props.C10Names'], ['EPV.Spec.XSDLexical', 'EPV.Model.Lexical'])
     try:
         impl = Impl()
         rng = run.rng
